@@ -463,7 +463,7 @@ func init() {
 		Run:            c04Run,
 		Replay:         c04Replay,
 		QuickBudget:    150 * time.Second,
-		ThoroughBudget: 15 * time.Minute,
+		ThoroughBudget: 8 * time.Minute,
 	})
 }
 
